@@ -8,10 +8,12 @@
                                                             -> ok          (what the real decoder / template.Named reported)
     upload <c|d> <hex> <contenthex> ## <obs>
     create <name4> from <name4> | files <k> {<c|d> <hex>}*   then
-           <tmplhex|~> <0|1> <syshex|~> <nl> {<licensehex>}* <np> {<keyhex> <valhex>}* ## <obs>
+           <tmplhex|~> <0|1> <syshex|~> <nl> {<licensehex>}* <np> {<keyhex> <valhex>}* <stream|nostream>
+           [msgs <k> {<rolehex> <contenthex>}*] ## <obs>
     copy <name4> <name4> ## <obs>
     delete <name4> ## <obs>
     prune ## <obs>
+    noprune <0|1> ## <obs>                (the driver sets / clears OLLAMA_NOPRUNE; envconfig reads it at every call)
     pull <name4> missing | <k> {<media code> <contenthex> <servedhex|=>}* C <cfgcontenthex> <servedhex|=> ## <obs>
                                           (POST /api/pull from an in-memory registry; served = what it returns)
     plant <name4> <name4> ## <obs>        (not an API op: legacy / un-canonicalised manifest)
@@ -77,7 +79,15 @@ def pCreate : TP CreateReq := do
   let lics ← listOf hex
   let params ← listOf pKV
   let _mode ← tok   -- stream | nostream: which response path the driver used; the store effect is the same
-  pure { name, src, files, template := tmpl.map (fun t => (t, tok1 != 0)), system := sys, licenses := lics, params }
+  -- optional suffix `msgs <k> {<rolehex> <contenthex>}*`
+  let rest ← get
+  let messages ← (match rest with
+    | "msgs" :: _ => do
+      let _ ← tok
+      listOf pKV
+    | _ => pure [] : TP (List (String × String)))
+  pure { name, src, files, template := tmpl.map (fun t => (t, tok1 != 0)), system := sys, licenses := lics, params,
+         messages }
 
 def showName (n : Name) : String := s!"{n.host}/{n.ns}/{n.model}:{n.tag}"
 
@@ -106,11 +116,13 @@ structure OState where
   st : Store
   metas : List (String × Meta)
   v : Variant
+  /-- OLLAMA_NOPRUNE at this point of the history (`noprune 0|1`; `reset` clears it) -/
+  noPrune : Bool := false
 
 def sha (c : Bytes) : String := hexOf (Sha256.sha256 c)
 
-def envOf (metas : List (String × Meta)) (v : Variant) : Env :=
-  { hash := sha, gguf := fun c => aget metas (sha c), v := v }
+def envOf (metas : List (String × Meta)) (v : Variant) (noPrune : Bool := false) : Env :=
+  { hash := sha, gguf := fun c => aget metas (sha c), v := v, noPrune := noPrune }
 
 /-- all results of `getExistingName` (one, when the repaired version is under test) -/
 def resolveAll (env : Env) (st : Store) (n : Name) : List Name :=
@@ -211,7 +223,13 @@ def splitObs (toks : List String) : List String × String :=
 
 def handle (s : OState) (toks : List String) : OState × String :=
   match toks with
-  | ["reset"] => ({ s with st := Store.empty }, "ok")
+  | ["reset"] => ({ s with st := Store.empty, noPrune := false }, "ok")
+  | "noprune" :: x :: rest =>
+    -- the driver set / cleared OLLAMA_NOPRUNE: nothing in the store changes
+    let s' := { s with noPrune := x == "1" }
+    let o := (splitObs rest).2
+    let mine := obs ["ok"] s.st
+    (s', if mine == o then o else mine)
   | ["variant", a, b, c, d, e] => ({ s with v := ⟨a == "1", b == "1", c == "1", d == "1", e == "1"⟩ }, "ok")
   | "meta" :: rest =>
     match runTP (do
@@ -228,7 +246,7 @@ def handle (s : OState) (toks : List String) : OState × String :=
     let (a, o) := splitObs rest
     match runTP pName a with
     | some n =>
-      let env := envOf s.metas s.v
+      let env := envOf s.metas s.v s.noPrune
       let outs := ((resolveAll env s.st n).map (fun t => showAt env s.st t)).eraseDups
       if outs.contains o then (s, o) else (s, outs.headD "none")
     | none => (s, "bad-op")
@@ -236,7 +254,7 @@ def handle (s : OState) (toks : List String) : OState × String :=
     let (a, o) := splitObs toks
     match runTP pOp a with
     | some op =>
-      let env := envOf s.metas s.v
+      let env := envOf s.metas s.v s.noPrune
       let outs := outcomes env s.st op
       match outs.find? (fun (st', res) => obs res st' == o) with
       | some (st', _) => ({ s with st := st' }, o)
@@ -259,4 +277,4 @@ end Oracle.C04
 def main (_ : List String) : IO Unit := do
   let stdin ← IO.getStdin
   let stdout ← IO.getStdout
-  Oracle.C04.loop stdin stdout ⟨OllamaVerif.Store.Store.empty, [], OllamaVerif.Store.Variant.pinned⟩
+  Oracle.C04.loop stdin stdout ⟨OllamaVerif.Store.Store.empty, [], OllamaVerif.Store.Variant.pinned, false⟩
